@@ -471,6 +471,22 @@ func init() {
 			return v
 		}
 	}
+	// reflect.DeepEqual: an uninterpreted equivalence relation on the boxed operands
+	H["reflect.DeepEqual"] = func(e *Engine, fc *fnCtx, st *State, c *ssa.CallCommon, a []Val, r types.Type) (Val, bool) {
+		return boolRes("(deepEqual " + a[0].T + " " + a[1].T + ")")
+	}
+	pureSpecFuncs["reflect.DeepEqual"] = func(e *Engine, env *SpecEnv, a []Val) Val {
+		var ts []string
+		for _, v := range a {
+			if v.GoT != nil && !types.IsInterface(v.GoT) {
+				bx, _ := e.boxFns(v.GoT)
+				ts = append(ts, "("+bx+" "+v.T+")")
+			} else {
+				ts = append(ts, v.T)
+			}
+		}
+		return boolVal("(deepEqual " + ts[0] + " " + ts[1] + ")")
+	}
 	// slices
 	H["slices.Contains"] = func(e *Engine, fc *fnCtx, st *State, c *ssa.CallCommon, a []Val, r types.Type) (Val, bool) {
 		sl, ok := c.Args[0].Type().Underlying().(*types.Slice)
@@ -484,7 +500,7 @@ func init() {
 func (e *Engine) sliceHasTerm(st *State, s Val, elem types.Type, v string) string {
 	q := "q_j!" + fmt.Sprint(e.sc.n)
 	e.sc.n++
-	return "(exists ((" + q + " Int)) (and (<= 0 " + q + ") (< " + q + " (s_len " + s.T + ")) (= " + e.sliceElem(st, s, elem, q) + " " + v + ")))"
+	return "(exists ((" + q + " Int)) (! (and (<= 0 " + q + ") (< " + q + " (s_len " + s.T + ")) (= " + e.sliceElem(st, s, elem, q) + " " + v + ")) :pattern ((ix (s_off " + s.T + ") " + q + "))))"
 }
 
 func parseVerbs(format string) []byte {
